@@ -298,3 +298,42 @@ def derives_from(path, v, pred, depth=0):
             if any(derives_from(path, a, pred, depth + 1) for a in c['args']):
                 return True
     return False
+
+
+def cmp_norm(ev):
+    """What an ordering comparison established on this path, orientation-free:
+    ('ge', a, b) meaning a >= b, or ('gt', a, b) meaning a > b.  None if the cond is not an ordering comparison."""
+    t = cond_truth(ev)
+    e = ev['expr']
+    if t is None or e[0] != 'binop' or e[1] not in ('Ge', 'Gt', 'Le', 'Lt'):
+        return None
+    op, a, b = e[1], e[2], e[3]
+    if op == 'Ge':
+        return ('ge', a, b) if t else ('gt', b, a)
+    if op == 'Gt':
+        return ('gt', a, b) if t else ('ge', b, a)
+    if op == 'Le':
+        return ('ge', b, a) if t else ('gt', a, b)
+    return ('gt', b, a) if t else ('ge', a, b)
+
+
+def at_least(ev, is_term):
+    """If the cond establishes term >= k for a term satisfying is_term and an integer constant k: (term, k)."""
+    n = cmp_norm(ev)
+    if n is None:
+        return None
+    rel, a, b = n
+    if is_term(a) and b[0] == 'const' and b[2] is not None:
+        return a, b[2] + (1 if rel == 'gt' else 0)
+    return None
+
+
+def at_most(ev, is_term):
+    """If the cond establishes term <= k: (term, k)."""
+    n = cmp_norm(ev)
+    if n is None:
+        return None
+    rel, a, b = n
+    if is_term(b) and a[0] == 'const' and a[2] is not None:
+        return b, a[2] - (1 if rel == 'gt' else 0)
+    return None
